@@ -25,6 +25,10 @@ TRUSTED_BASE = [
     'threading.Timer is modelled as two events (expire: wake up and pass the cancelled test; run: call the function); '
     'cancel() stops only a timer that has not expired; harness/fakes/c10_retry.py implements exactly this for the real code',
     'dict semantics assumed: insertion-ordered keys, assignment to an existing key keeps its position',
+    'generate(): fail-closed ast extraction of every assignment to needs_resending / _has_safelink in cflib/crtp/'
+    '{crtpdriver,usbdriver,radiodriver}.py into coq/C10/Gen_Drivers.v (theorems C10_driver_flags, '
+    'C10_usb_and_safelink_no_retry are re-checked against it on every run); the oracle reads the flag from the real '
+    'driver objects (radio thread run against a scripted radio)',
 ]
 ASSUMPTIONS = [
     'granularity: send_packet, the retry function, _check_for_answers, close_link, open_link, _link_error_cb execute '
@@ -44,7 +48,10 @@ PROVED = ('Over the model of the retry machinery with fix F10, for every list of
           'never transmitted in any continuation); an arriving '
           'packet removes exactly the longest pending pattern that is a prefix of header+data and stops only that timer; on a '
           'link that does not need resending no timer is ever created; nothing is transmitted without an open link and every '
-          'transmission goes to the link of the session in which the request was sent.')
+          'transmission goes to the link of the session in which the request was sent; a timer that is not the pending one of '
+          'its pattern fires silently in any state, and states differing only in the status of such timers transmit the same '
+          'in every continuation (so whether leftover timers are cancelled is immaterial); the USB driver and the radio '
+          'driver after safelink confirmation open links on which no timer is ever created (flags extracted from the drivers).')
 NOT_PROVED = ('Liveness (that the timer thread eventually runs) is an assumption on the Python runtime, not a theorem: the '
               'theorems say what happens when it runs. A request superseded by a later request with the same pattern is no '
               'longer retried (only the later one is). Races below the stated granularity are not modelled.')
@@ -330,6 +337,13 @@ def gen_case(rng, ideal):
                 for t in list(r.timers):
                     if t.status == drv.COMMITTED and rng.random() < 0.8:
                         do(['run', t.tid])
+        if not ideal and rng.random() < 0.5:
+            # fire whatever is left, in this session or after the link was closed / failed and reopened
+            for ev in rng.choice([[['flushall']], [['close'], ['open', True], ['flushall']],
+                                  [['linkerr'], ['open', True], ['flushall']],
+                                  [['close'], ['open', True]] + ([['send', rid, sent[0][0], [1], sent[0][1], None]] if sent else [])
+                                  + [['flushall'], ['flushall']]]):
+                do(ev)
     finally:
         r.finish()
     return {'events': events, 'ideal': ideal}
@@ -349,6 +363,20 @@ def _unflat(vals):
 
 
 # ------------------------------------------------------------------ tie
+def _equal_up_to_stale(m, e, pending):
+    """Same transmissions, same number of timers, same deadlines, same status for every pending timer."""
+    if not m or not e or m[0] != e[0]:
+        return False
+    n = 1 + 3 * m[0]
+    if m[:n] != e[:n] or len(m) != len(e) or len(m) - n != 2 * len(pending):
+        return False
+    for i, p in enumerate(pending):
+        sm, dm, se, de = m[n + 2 * i], m[n + 2 * i + 1], e[n + 2 * i], e[n + 2 * i + 1]
+        if dm != de or (p and sm != se):
+            return False
+    return True
+
+
 def _nontrivial(case, res):
     """>= 1 retransmission by a timer and >= 1 of: answer that cancels a timer, close/link error with pending timers,
     same pattern re-sent, two pending patterns sharing a prefix."""
@@ -368,18 +396,32 @@ def tie(ctx):
     starts = list(range(0, len(cases), B))
     bterms = ['flat [%s]' % '; '.join(terms[a:a + B]) for a in starts]
     bexp = [coqrun.flat(exp[a:a + B]) for a in starts]
-    dis, nd = [], 0
-    for bi, mv in coqrun.compare_blocks(HEADER, bterms, bexp, tag='c10', shard=max(2, len(bterms) // 16 + 1)):
-        a = starts[bi]
-        per = _unflat(mv) if mv is not None else None
-        for k in range(len(cases[a:a + B])):
-            m = per[k] if per is not None and k < len(per) else None
-            if m == exp[a + k]:
-                continue
-            nd += 1
-            if len(dis) < 5:
-                dis.append({'what': 'retry machinery: transmissions/timers of model and implementation differ',
-                            'case': cases[a + k], 'expanded': ress[a + k]['expanded'], 'model': m, 'impl': exp[a + k]})
+    hdr = HEADER + 'From CF Require Import Common.Digest.\n'
+    sh = max(2, len(bterms) // 16 + 1)
+    dg = coqrun.eval_terms(hdr, ['digest (%s)' % t for t in bterms], tag='c10', shard=sh)
+    bad = [i for i, (d, e) in enumerate(zip(dg, bexp)) if tuple(d) != coqrun.digest(e)]
+    dis, nd, stale_only = [], 0, 0
+    if bad:
+        # full values + which timers are pending: the status of a timer that is not the pending one of its pattern is
+        # unobservable (theorem C10_leftover_timers_unobservable), so it is not compared
+        full = coqrun.eval_terms(hdr, [bterms[i] for i in bad], tag='c10f', shard=max(1, len(bad) // 16 + 1))
+        pend = coqrun.eval_terms(hdr, ['flat [%s]' % '; '.join(t.replace('obs_of', 'obs_pending', 1)
+                                                                for t in terms[starts[i]:starts[i] + B]) for i in bad],
+                                 tag='c10p', shard=max(1, len(bad) // 16 + 1))
+        for bi, mv, pv in zip(bad, full, pend):
+            a = starts[bi]
+            per, pp = _unflat(mv), _unflat(pv)
+            for k in range(len(cases[a:a + B])):
+                m, e = per[k], exp[a + k]
+                if m == e:
+                    continue
+                if _equal_up_to_stale(m, e, pp[k]):
+                    stale_only += 1
+                    continue
+                nd += 1
+                if len(dis) < 5:
+                    dis.append({'what': 'retry machinery: transmissions/timers of model and implementation differ',
+                                'case': cases[a + k], 'expanded': ress[a + k]['expanded'], 'model': m, 'impl': e})
     if dis:
         try:    # diagnostic: does the implementation still behave like the tree before fix F10?
             lv = coqrun.eval_terms(HEADER, [case_term(d['expanded'], 'Legacy') for d in dis], tag='c10l', shard=8)
@@ -389,7 +431,7 @@ def tie(ctx):
             pass
         dis.append({'what': 'total disagreements', 'count': nd})
     seen, nontriv = set(), 0
-    dist = {'cases': len(cases), 'ideal_timing': 0, 'racy_timing': 0, 'events': 0, 'timers': 0, 'transmissions': 0,
+    dist = {'cases': len(cases), 'cases_differing_only_in_status_of_stale_timers': stale_only, 'ideal_timing': 0, 'racy_timing': 0, 'events': 0, 'timers': 0, 'transmissions': 0,
             'by_kind': {}}
     for c, r in zip(cases, ress):
         h = runner.sha(c)
@@ -409,7 +451,9 @@ def tie(ctx):
         'rule': 'a case = list of events (send with pattern/timeout, recv, open(needs_resending), close, link error, setnr, '
                 'time steps, timer expire/run incl. runs of timers cancelled after expiring); non-trivial: a timer '
                 'retransmitted or >= 2 timers existed, and an answer/close/link error occurred; compared: every request '
-                'transmission (session, request, virtual time), raised sends, final (status, deadline) of every timer',
+                'transmission (session, request, virtual time), raised sends, final deadline of every timer and final status of '
+                'every timer that is the pending one of its pattern (the status of stale timers is unobservable: theorem '
+                'C10_leftover_timers_unobservable; differences there are counted in the distribution, not reported)',
         'samples': [{'events': cases[i]['events'], 'impl': exp[i]} for i in (0, len(cases) // 2, len(cases) - 1)],
         'distribution': dist,
         'exhaustive': False,
@@ -471,6 +515,8 @@ def check_case(case):
                 nr = bool(e[1])
         elif k in ('adv', 'advfire'):
             now += e[1]
+        elif k == 'flushall':
+            now += 5000
     # A. nothing on a closed / replaced link (all packets, also those the library sends by itself)
     for t in res['tx']:
         if t['closed'] or not t['current']:
